@@ -103,7 +103,19 @@ def run(ctx):
             for k, rt in enumerate(routes):
                 objs.append(H.Route("r%d" % (k + 1), rt["method"], pat_str(rt["pat"]),
                                     (lambda kk: (lambda req: H.Response(b"route %d" % kk)))(k + 1)))
-            router.registerRoutes(objs)
+            if len(table_rows) % 2:
+                # every second table is built the hard way: the requests are answered once on the still empty router (all 404), then the routes arrive in a batch whose
+                # last entry is refused (unsupported method) - the earlier routes of such a batch are live - and only then the answers that count are taken:
+                # they are a function of the table, not of what was asked before or of how registration ended
+                for req in requests:
+                    ip[0] += 1
+                    router.dispatch(H.Request(("10.%d.%d.%d" % (ip[0] >> 16 & 255, ip[0] >> 8 & 255, ip[0] & 255), 4000), req["method"], url(req["path"]), {}, "", {}, io.BytesIO(b"")))
+                try:
+                    router.registerRoutes(objs + [H.Route("bad", "PATCH", "/never", lambda req: H.Response(b"never"))])
+                except ValueError:
+                    pass
+            else:
+                router.registerRoutes(objs)
             rows = []
             for req in requests:
                 ip[0] += 1
